@@ -461,6 +461,7 @@ func checkValueCycle(kind string, res *result) {
 			v := valueCycle(kind)
 			var err error
 			var n int
+			sameEncoder := ""
 			msg, _ := iocase.Guard(func() {
 				if entry == "formatter" {
 					var b []byte
@@ -470,12 +471,24 @@ func checkValueCycle(kind string, res *result) {
 					enc := new(hio.Encoder).Simple(simple)
 					err = enc.Encode(v)
 					n = len(enc.Bytes())
+					// the next value on the same encoder is written as it is on an encoder of its own (the error of
+					// the refused one stays with the encoder)
+					good := map[string]interface{}{"k": []interface{}{1, "xy"}}
+					enc.Encode(good)
+					fresh := new(hio.Encoder).Simple(true)
+					fresh.Encode(good)
+					if simple && string(enc.Bytes()[n:]) != string(fresh.Bytes()) {
+						sameEncoder = fmt.Sprintf("after the refused value the same encoder writes %q for a sound value, an encoder of its own %q", enc.Bytes()[n:], fresh.Bytes())
+					}
 				}
 			})
 			res.Cases++
 			if msg != "" {
 				res.Viol = append(res.Viol, viol{Sig: "C02|valuecycle|panic|" + kind, What: fmt.Sprintf("%s, simple=%v, %s: encoding panics: %s", kind, simple, entry, msg), Replay: job{Part: "valuecycle", Kind: kind}})
 				continue
+			}
+			if sameEncoder != "" {
+				res.Viol = append(res.Viol, viol{Sig: "C02|valuecycle|next-value-on-the-same-encoder-damaged|" + kind, What: kind + ": " + sameEncoder, Replay: job{Part: "valuecycle", Kind: kind}})
 			}
 			if err == nil {
 				res.Viol = append(res.Viol, viol{Sig: "C02|valuecycle|no-error-for-an-infinite-unfolding|" + kind, What: fmt.Sprintf("%s, simple=%v, %s: encoding a value that contains itself returned %d bytes and no error", kind, simple, entry, n), Replay: job{Part: "valuecycle", Kind: kind}})
